@@ -24,7 +24,7 @@ func init() {
 		ID:      "C09",
 		Level:   "other",
 		Explain: "Independence of neighbouring blocks depends on the values of context flags across lines and is not decided. Decided is the clause that makes link reference definitions position-independent: (P) Context.AddReference is called only from code reachable from the block phase and not from the inline phase, Context.Reference lookups happen only in code reachable from the inline phase (or later) and not from the block phase, and in Parse the block-phase call dominates the start of the inline phase — so every lookup sees every definition wherever it stands; the first definition wins (the store in AddReference is dominated by the miss edge of a lookup of the same key). Does NOT decide the A/heading/B independence equation or label normalisation.",
-		Rules:   []func(*World, *Report){ruleReferencePhases, ruleBlockStateInitialised, ruleBlockStateOwner, ruleEndOfInputClosesAll, ruleTitleDelimiters, ruleHTMLBlockEndCaseInsensitive, ruleWideGuardsEverywhere, ruleEndOfInputIsBlank},
+		Rules:   []func(*World, *Report){ruleReferencePhases, ruleBlockStateInitialised, ruleBlockStateOwner, ruleAccumulatorsExtended, ruleEndOfInputClosesAll, ruleTitleDelimiters, ruleHTMLBlockEndCaseInsensitive, ruleWideGuardsEverywhere, ruleEndOfInputIsBlank},
 	})
 	register(&Property{
 		ID:      "C11",
